@@ -266,6 +266,8 @@ def library(draw, lang=None, max_decls=8, with_python=None, with_lua=None, featu
                 kinds.append(k)
         if "class" in feats and not any(d["kind"] == "classpair" for d in lib["decls"]):
             kinds.append("classpair")
+        if "class" in feats and "template" in feats:
+            kinds.append("ctemplate")
         k = draw(st.sampled_from(kinds))
         if i == must_pos and (must in kinds or (must == "deepns" and "namespace" in kinds)):
             k = must            # stratified sampling: this library carries the required kind of declaration
@@ -276,6 +278,11 @@ def library(draw, lang=None, max_decls=8, with_python=None, with_lua=None, featu
             lib["decls"].append(draw(function(lang, names, prefix=None)))
         elif k == "class":
             lib["decls"].append(draw(class_decl(lang, names)))
+        elif k == "ctemplate":
+            # templates.rst / templates.yaml: a class template with its instantiations
+            insts = draw(st.lists(st.sampled_from(["int", "double", "long"]), min_size=1, max_size=2, unique=True))
+            lib["decls"].append(dict(kind="ctemplate", name=names.fresh("Holder"), insts=insts,
+                                     with_name=draw(st.booleans())))
         elif k == "classpair":
             # struct.rst "Forward Declaration": two classes whose methods take each other
             a, b = names.fresh("Node"), names.fresh("Edge")
@@ -421,6 +428,14 @@ def _decl_yaml(node, lib):
              "declarations": [_decl_yaml(x, lib) for x in node["decls"]]}
     elif k == "block":
         d = {"block": True, "declarations": [_decl_yaml(x, lib) for x in node["decls"]]}
+    elif k == "ctemplate":
+        nm = node["name"]
+        inner = [{"decl": "%s()" % nm}, {"decl": "void setValue(T v)"}, {"decl": "T getValue()"}]
+        if node["with_name"]:
+            inner += [{"decl": "void setName(const std::string &name)"}, {"decl": "const std::string &getName() const"}]
+        return {"decl": "template<typename T> class " + nm,
+                "cxx_template": [{"instantiation": "<%s>" % t} for t in node["insts"]],
+                "declarations": inner, "options": {"wrap_python": False, "wrap_lua": False}}
     elif k == "classpair":
         a, b, how = node["a"], node["b"], node["how"]
         nolua = {"options": {"wrap_lua": False}} if lib["options"].get("wrap_lua") else {}
@@ -512,7 +527,8 @@ def sample(strategy, seed_value, n):
     return out[:n]
 
 
-STRATA = [None, "class", "namespace", "deepns", "overload", "default", "template", "generic", "enum", "struct", "classpair"]
+STRATA = [None, "class", "namespace", "deepns", "overload", "default", "template", "generic", "enum", "struct", "classpair",
+          "ctemplate"]
 
 
 def sample_models(seed_value, n, **kw):
@@ -566,6 +582,11 @@ def header(lib):
                 for m in n["methods"]:
                     out.append(indent + "    " + func_proto(m))
                 out.append(indent + "};")
+            elif k == "ctemplate":
+                body = "%s(); void setValue(T v); T getValue();" % n["name"]
+                if n["with_name"]:
+                    body += " void setName(const std::string &name); const std::string &getName() const;"
+                out.append(indent + "template<typename T> class %s { public: %s };" % (n["name"], body))
             elif k == "classpair":
                 a, b, how = n["a"], n["b"], n["how"]
                 out.append(indent + "class %s;" % a)
